@@ -123,6 +123,50 @@ def mutate_bytes(r, data):
     return data[:pos], "truncate@%d" % (pos - k)
 
 
+def is_select(t):
+    return isinstance(t, tuple) and t[0] == "select"
+
+
+def refs_through(S, y, E, attr):
+    """the instances y mentions through attribute attr of entity E (directly or as aggregate elements, bare or inside a
+    SELECT); None when y is not of type E.  An instance in external mapping is of type E when E is one of its parts."""
+    if y["complex"]:
+        for (pe, vals) in y["parts"]:
+            if pe == E:
+                names = [a[0] for a in S.ENTITIES[E][1]]
+                return refs_of(vals[names.index(attr)])
+        return None
+    ent = y["parts"][0][0]
+    if not S.isa(ent, E):
+        return None
+    return refs_of(y["parts"][0][1][[a[1] for a in S.all_attrs(ent)].index(attr)])
+
+
+def _i(i, kw, toks, params):
+    return {"id": i, "complex": False, "toks": [kw, "("] + toks + [")"], "parts": [(kw, params)]}
+
+
+# populations of schemas/verif_inv.exp that every C11 run starts with: inverses inherited from a second supertype and from
+# a grandparent; a referrer in external mapping; an inverted attribute of a SELECT type (the last two: open findings)
+C11_FIXED = [
+    [_i(1, "TAGGED_PART", ["'p'", ",", "'t'", ",", "1"], [("str", "p"), ("str", "t"), ("int", 1)]),
+     _i(2, "TAG_USE", ["#1", ",", "'u'"], [("ref", 1), ("str", "u")]),
+     _i(3, "ASSEMBLY", ["'a'", ",", "(", "#1", ",", "#4", ")", ",", "#4", ",", "$"],
+        [("str", "a"), ("list", [("ref", 1), ("ref", 4)]), ("ref", 4), ("null",)]),
+     _i(4, "VERY_SPECIAL_PART", ["'v'", ",", "1", ",", "2"], [("str", "v"), ("int", 1), ("int", 2)]),
+     _i(5, "CERTIFICATE", ["#4", ",", "$"], [("ref", 4), ("null",)]),
+     _i(6, "DOCUMENTATION", ["#4", ",", "'d'"], [("ref", 4), ("str", "d")])],
+    [_i(1, "PART", ["'p'"], [("str", "p")]),
+     _i(2, "ASSEMBLY", ["'a'", ",", "(", "#1", ")", ",", "$", ",", "$"], [("str", "a"), ("list", [("ref", 1)]), ("null",), ("null",)]),
+     {"id": 3, "complex": True,
+      "toks": ["(", "ASSEMBLY", "(", "'c'", ",", "(", "#1", ")", ",", "#1", ",", "$", ")", "SUB_ASSEMBLY", "(", "2", ")", ")"],
+      "parts": [("ASSEMBLY", [("str", "c"), ("list", [("ref", 1)]), ("ref", 1), ("null",)]), ("SUB_ASSEMBLY", [("int", 2)])]}],
+    [_i(1, "PART", ["'p'"], [("str", "p")]),
+     _i(2, "LABEL", ["#1", ",", "'l'"], [("ref", 1), ("str", "l")]),
+     _i(3, "DOCUMENTATION", ["#1", ",", "'t'"], [("ref", 1), ("str", "t")])],
+]
+
+
 def main(tier, seed, pid):
     res = Result(pid, tier, seed)
     try:
@@ -170,13 +214,18 @@ def main(tier, seed, pid):
         payload.update(extra or {})
         res.violation(what, payload, found_input=found)
 
-    for k in range(n):
+    fixed = C11_FIXED if pid == "C11" else []
+    for k in range(-len(fixed), n):
         r = rng(seed, "%s/%d" % (pid, k))
-        S = popgen.VERIF_ALL if (pid == "C10" or k % 3 == 2) else popgen.VERIF_INV
+        S = popgen.VERIF_ALL if (pid == "C10" or (k >= 0 and k % 3 == 2)) else popgen.VERIF_INV
         hfile, hlazy = tools[S.name]
         g = popgen.Gen(r, fancy=(k % 2 == 1), schema=S)
-        insts = g.population(r.choice([5, 8, 12, 20]))
-        if S is popgen.VERIF_INV:
+        if k < 0:
+            insts = [dict(i) for i in fixed[k + len(fixed)]]
+            hist["fixed_populations"] = hist.get("fixed_populations", 0) + 1
+        else:
+            insts = g.population(r.choice([5, 8, 12, 20]))
+        if S is popgen.VERIF_INV and k >= 0:
             # a single-valued inverse admits one referrer: keep at most one DOCUMENTATION per part
             seen_parts = set()
             kept = []
@@ -335,7 +384,12 @@ def main(tier, seed, pid):
             rc, out, err = shb([hlazy, fin, ",".join(str(x) for x in o)], timeout=90)
             lz2 = parse_lazy(out.decode("latin-1"))
             what = None
-            if rc != 0:
+            if rc != 0 and k < 0 and any(not i["complex"] and i["parts"][0][0] == "LABEL" for i in order):
+                # the fixed population with an inverted attribute of a SELECT type: an assertion (debug build), a null
+                # pointer or an empty inverse attribute, depending on the build
+                res.violation("lazy loader died (status %d) on the population with LABEL" % rc, {}, signature="select_typed_inverted_attribute")
+                break
+            elif rc != 0:
                 what = "lazy loader died (status %d) loading in order %s" % (rc, o[:12])
             elif [x for x, _ in lz2["load"]] != o:
                 what = "loads answered %s, requested %s" % ([x for x, _ in lz2["load"]][:12], o[:12])
@@ -374,20 +428,29 @@ def main(tier, seed, pid):
                     isa_pairs = " ".join("%d:%d" % (tid[a], tid[b]) for a in enames for b in enames if S.isa(a, b))
                     for (iname, E, attr, _agg) in decls:
                         hist["inverse_checked"] += 1
-                        ai = [a[1] for a in S.all_attrs(E)].index(attr)
-                        exp = sorted(y["id"] for y in order if not y["complex"] and S.isa(y["parts"][0][0], E) and
-                                     x in refs_of(y["parts"][0][1][[a[1] for a in S.all_attrs(y["parts"][0][0])].index(attr)]))
+                        exp = sorted(y["id"] for y in order if x in (refs_through(S, y, E, attr) or []))
+                        exp_simple = sorted(y["id"] for y in order if not y["complex"] and x in (refs_through(S, y, E, attr) or []))
+                        sel_typed = is_select([a for a in S.all_attrs(E) if a[1] == attr][0][2])
                         if exp:
                             hist["inverse_nonempty"] += 1
                         if len(exp) > 1:
                             hist["inverse_multi"] = hist.get("inverse_multi", 0) + 1
+                        if exp != exp_simple:
+                            hist["inverse_with_complex_referrer"] = hist.get("inverse_with_complex_referrer", 0) + 1
                         got = lz2["inv"].get(x, {}).get(iname)
                         if got is None:
                             got = []
                         if sorted(got) != exp:
-                            what = "#%d.%s holds %s after loading in order %s..., real referrers through %s.%s are %s" % (
+                            msg = "#%d.%s holds %s after loading in order %s..., real referrers through %s.%s are %s" % (
                                 x, iname, got, o[:8], E, attr, exp)
-                            break
+                            # the two open findings, each recognised by exactly what it loses
+                            if sel_typed and not got:
+                                res.violation(msg, {}, signature="select_typed_inverted_attribute")
+                            elif not sel_typed and sorted(got) == exp_simple:
+                                res.violation(msg, {}, signature="complex_referrer_not_candidate")
+                            else:
+                                what = msg
+                                break
                         # model
                         pops = []
                         for y in order:
@@ -396,6 +459,8 @@ def main(tier, seed, pid):
                             e2 = y["parts"][0][0]
                             attrs = []
                             for j, a in enumerate(S.all_attrs(e2)):
+                                if is_select(a[2]):
+                                    continue      # lazyRefs does not look into a SELECT (open finding select_typed_inverted_attribute)
                                 rs = refs_of(y["parts"][0][1][j])
                                 if rs:
                                     attrs.append("%d.%d=%s" % (tid[a[0]], j + 1 if not (a[0] == E and a[1] == attr) else 999,
